@@ -1887,7 +1887,7 @@ fn main() {
 
     // ---- keys and prefixes that are arbitrary strings (see `PIECES`): 1-4 threads, a quarter of
     //      the operations prefix scans; without and with the log (recovered = live per key)
-    for (stream, durable, n) in [("random.odd_keys", false, 120u64), ("random.odd_keys_durable", true, 50)] {
+    for (stream, durable, n) in [("random.odd_keys", false, 100u64), ("random.odd_keys_durable", true, 40)] {
         let mut r = root.fork(stream);
         let mut g = Gen { next_tag: 0 };
         for i in 0..(n * scale) {
@@ -1925,7 +1925,7 @@ fn main() {
         let stream = "random.durable_writers_and_readers";
         let mut r = root.fork(stream);
         let mut g = Gen { next_tag: 0 };
-        for i in 0..(100 * scale) {
+        for i in 0..(80 * scale) {
             let nthreads = 2 + (i % 5) as usize; // 2..=6
             let progs = g.durable_rw(&mut r, nthreads);
             let wal = Some(if i % 8 == 0 { SyncMode::Immediate } else { SyncMode::Manual });
@@ -1936,7 +1936,7 @@ fn main() {
         // the same programs, fsync per record, and a crash probe at a random moment of the run
         let stream = "random.durable_crash_anywhere";
         let mut r = root.fork(stream);
-        for i in 0..(40 * scale) {
+        for i in 0..(30 * scale) {
             let nthreads = 2 + (i % 4) as usize;
             let progs = g.durable_rw(&mut r, nthreads);
             let est: u64 = progs.iter().flatten().map(|op| match op { Op::PutD(k, _) | Op::DelD(k) if k.cls() == Cls::E => 4, Op::PutD(..) | Op::DelD(..) => 2, _ => 1 }).sum();
